@@ -377,7 +377,7 @@ def split_call(x, method, form, *, max_bond=None, cutoff=0.0, mode="rsum2", reno
 # ---------------------------------------------------------------------------
 
 def verify(x, L, s, R, idict, method, form, *, max_bond=None, cutoff=0.0, mode="rsum2", renorm=None, info=None,
-           count_rule=True, report=None):
+           count_rule=True, report=None, ref=None):
     """Check everything the contract says about (L, s, R) = array_split(x, ...).  Returns dict(k, removed, err, ...).
     count_rule=False: the kept count is taken as given (batched truncation keeps the maximum over the batch)."""
     D = dmod()
@@ -430,7 +430,7 @@ def verify(x, L, s, R, idict, method, form, *, max_bond=None, cutoff=0.0, mode="
         raise Violation("bond-above-cap", k=k, max_bond=mb, **info)
     # ---- reference spectrum and the documented kept count -----------------------------------
     x128 = x.astype(np.complex128)
-    U0, s0, V0 = np.linalg.svd(x128, full_matrices=False)
+    U0, s0, V0 = ref if ref is not None else np.linalg.svd(x128, full_matrices=False)
     smax = max(float(s0[0]), 1e-300)
     nx = max(core.fro(x128), 1e-300)
     tol = tol_class(driver, dt)
@@ -552,10 +552,10 @@ def verify(x, L, s, R, idict, method, form, *, max_bond=None, cutoff=0.0, mode="
             "rankdef": bool(s0[-1] <= 1e-7 * smax), "driver": driver, "form": eff_form, "ignored": ignored}
 
 
-def check_cell(x, method, form, *, want_info=False, extra=None, info=None, **opts):
-    """Call array_split on the 2-D array x and verify the result."""
+def check_cell(x, method, form, *, want_info=False, extra=None, info=None, ref=None, **opts):
+    """Call array_split on the 2-D array x and verify the result (ref: precomputed numpy svd of x, complex128)."""
     L, s, R, idict = split_call(x, method, form, want_info=want_info, extra=extra, info=info, **opts)
-    return verify(x, L, s, R, idict, method, form, info=info, **opts)
+    return verify(x, L, s, R, idict, method, form, info=info, ref=ref, **opts)
 
 
 # ---------------------------------------------------------------------------
@@ -598,7 +598,7 @@ def guarded_cell(x, method, form, info, **opts):
     driver, eff, caps, ignored = plan(method, form, opts.get("max_bond"), opts.get("cutoff", 0.0))
     if not form_supported(driver, eff):
         # documented: only some forms are valid for some methods -> the call must refuse
-        split_call(x, method, form, info=info, **{k: v for k, v in opts.items() if k != "want_info"})
+        split_call(x, method, form, info=info, **{k: v for k, v in opts.items() if k not in ("want_info", "ref")})
         raise Violation("unsupported-form-accepted", **dict(info, family=family(driver)))
     return check_cell(x, method, form, info=info, **opts)
 
@@ -679,13 +679,18 @@ def run_table(case):
     maxerr = 0.0
     single = is_single(dtype)
     base = dict(method=method, form=str(form), single=single, trunc=trunc)
+    memo = {}
     for mode in reg["modes"]:
         for renorm in RENORMS:
             fresh_parser()
             cells += 1
             driver, eff, caps, ignored = plan(method, form, 2 if trunc in ("max_bond", "both") else None,
                                               1.0 if trunc in ("cutoff", "both") else 0.0)
-            x, rank = table_input(driver, eff, sh, dtype, case["seed"], trunc)
+            mk = (driver, eff in SQRT_FORMS)
+            if mk not in memo:
+                x_, rank_ = table_input(driver, eff, sh, dtype, case["seed"], trunc)
+                memo[mk] = (x_, rank_, np.linalg.svd(x_.astype(np.complex128), full_matrices=False))
+            x, rank, ref = memo[mk]
             m, n = x.shape
             info = dict(base, shp=shape_class(m, n), mode=mode, renorm=repr(renorm), dclass=dclass(driver), family=family(driver))
             if uses_choose_k(driver):
@@ -693,7 +698,7 @@ def run_table(case):
             if not in_domain(driver, eff, m, n):
                 cls["outside-documented-domain"] += 1
                 continue
-            s0 = np.linalg.svd(x.astype(np.complex128), compute_uv=False)
+            s0 = ref[1]
             d = len(s0)
             mb, co = None, 0.0
             if rank is not None:
@@ -718,7 +723,7 @@ def run_table(case):
                         mb, co = kt, cutoff_for(s0, mode, kt + 1)      # the cap binds
             want_info = caps["info"] and (renorm in (0, 1))
             try:
-                out = guarded_cell(x, method, form, info, max_bond=mb, cutoff=co, mode=mode, renorm=renorm, want_info=want_info)
+                out = guarded_cell(x, method, form, info, max_bond=mb, cutoff=co, mode=mode, renorm=renorm, want_info=want_info, ref=ref)
             except CellReject as r:
                 cls["rejected:" + r.why] += 1
                 continue
@@ -730,8 +735,9 @@ def run_table(case):
                 cls["removed>=1"] += 1
             if out["promoted"]:
                 cls["dtype-promoted"] += 1
-    return {"n": cells, "nt": nt > 0, "nt_n": nt, "err": maxerr, "cls": [f"{k_}" for k_ in cls] + [f"trunc={trunc}"],
-            "cell_counts": dict(cls)}
+    # labels carry their own cell counts (the runner adds n = 24 to every label of a case)
+    labels = [f"{k_} [{v_}/{cells} cells]" if k_.startswith(("rejected", "outside")) else k_ for k_, v_ in cls.items()]
+    return {"n": cells, "nt": nt > 0, "nt_n": nt, "err": maxerr, "cls": labels + [f"trunc={trunc}"], "cell_counts": dict(cls)}
 
 
 def collections_counter():
@@ -1413,7 +1419,7 @@ def run_history(case):
 
 
 SUBCHECKS = [
-    SubCheck("table", run_table, enum=enum_table, exhaustive=True, shards=(16, 16), soft_budget=(300.0, 900.0), hard_timeout=(600.0, 1800.0),
+    SubCheck("table", run_table, enum=enum_table, exhaustive=True, shards=(16, 16), soft_budget=(600.0, 1800.0), hard_timeout=(1500.0, 3000.0),
              rule="every registered method + parser alias x every form + auto x dtype x 2 shapes x {none, max_bond, cutoff, both} as one case "
                   "= 24 cells (6 cutoff modes x renorm in {0, True, 1, 2}); inputs in each driver's documented domain, cutoffs placed "
                   "inside a gap of the reference spectrum; cells refused with ValueError/NotImplementedError are counted as rejected cells; "
